@@ -424,6 +424,8 @@ def clause_of(w, ifs, args, brush, bash, impl, spec, dflags=""):
     if "brace" in w.feats and empty_brace_alt(w.toks) and isinstance(brush, list) and isinstance(bash, list) \
             and [x for x in brush if x != ""] == [x for x in bash if x != ""]:
         return "empty_brace_alternative_kept"
+    # (C05-5 was repaired in /repo 14c5f22 and the model flipped — Model/Expand.lean dropNullAt, Props/C05.lean
+    # empty_at_with_null_rest_removed; the entry is `fixed`, so this detector is a tripwire: a hit is a VIOLATION)
     if "at" in w.feats and "dq" in w.feats and isinstance(brush, list) and isinstance(bash, list) \
             and len(brush) > len(bash) and [x for x in brush if x != ""] == [x for x in bash if x != ""]:
         return "empty_at_in_quotes_with_null_rest_keeps_field"
